@@ -4,6 +4,8 @@ package directinvoke
 
 import (
 	"bytes"
+	"math"
+	"net"
 	"context"
 	"io"
 	"net/http"
@@ -77,6 +79,7 @@ func verifResetPkgVars() {
 // also run on the state of a freshly started process, and both outcomes must agree.
 func VerifC17Stateless() {
 	tok, rt := verifToken("req")
+	tok.InvackDeadlineNs = math.MaxInt64 // no ack deadline here (expiry is covered by VerifC17Validation)
 	r := verifRequest("req", rt)
 
 	// arbitrary history
@@ -226,4 +229,98 @@ func VerifC17BucketParams() {
 	bw, cancel, err := NewStreamedResponseWriter(w)
 	verifAssert(err == nil && bw != nil && cancel != nil, "validated parameters always give a writer")
 	verifReach("writer")
+}
+
+// ---------------------------------------------------------------------------
+// streaming path: reset arriving while the runtime has stalled mid-body
+
+type verifConn struct {
+	closed   bool
+	closedCh chan struct{}
+}
+
+func (c *verifConn) Read(b []byte) (int, error)  { return 0, io.EOF }
+func (c *verifConn) Write(b []byte) (int, error) { return len(b), nil }
+func (c *verifConn) Close() error {
+	if !c.closed {
+		c.closed = true
+		close(c.closedCh)
+	}
+	return nil
+}
+func (c *verifConn) LocalAddr() net.Addr                { return nil }
+func (c *verifConn) RemoteAddr() net.Addr               { return nil }
+func (c *verifConn) SetDeadline(t time.Time) error      { return nil }
+func (c *verifConn) SetReadDeadline(t time.Time) error  { return nil }
+func (c *verifConn) SetWriteDeadline(t time.Time) error { return nil }
+
+// a /response body whose sender stalls: the bytes received so far, then nothing until the
+// connection is closed (which makes the read fail)
+type verifStallingBody struct {
+	data  []byte
+	conn  *verifConn
+	stall bool
+	done  bool
+}
+
+func (r *verifStallingBody) Read(p []byte) (int, error) { panic("only VerifRead is used") }
+func (r *verifStallingBody) VerifRead(n int64) ([]byte, error) {
+	if r.done {
+		return nil, nil
+	}
+	r.done = true
+	if r.stall {
+		<-r.conn.closedCh
+		return r.data, io.ErrUnexpectedEOF
+	}
+	return r.data, nil
+}
+
+// C17.2 (streaming): the copy always terminates; a reset during a stalled body is acknowledged,
+// classified Truncated, and carries the error type of the reset reason.
+func VerifC17StreamReset() {
+	verifResetPkgVars()
+	MaxDirectResponseSize = -1
+	InvokeResponseMode = interop.InvokeResponseModeStreaming
+	conn := &verifConn{closedCh: make(chan struct{})}
+	stall := verifNondetBool("runtime stalls mid-body")
+	data := make([]byte, 3)
+	for i := range data {
+		data[i] = verifNondetByte("body byte")
+	}
+	body := &verifStallingBody{data: data, conn: conn, stall: stall}
+	req := (&http.Request{Header: http.Header{}}).WithContext(context.WithValue(context.Background(), interop.HTTPConnKey, net.Conn(conn)))
+	w := newVerifRecorder()
+	interrupted := make(chan *interop.Reset)
+	metricsCh := make(chan *interop.InvokeResponseMetrics, 1)
+	resetAcked := false
+	if stall {
+		verifSpawn(func() { // what Server.Reset does
+			r := &interop.Reset{Reason: "timeout"}
+			interrupted <- r
+			<-interrupted
+			resetAcked = true
+		})
+	}
+	var err error
+	finished := false
+	verifSpawn(func() {
+		err = sendStreamingInvokeResponse(body, http.Header{}, w, interrupted, metricsCh, &interop.CancellableRequest{Request: req}, true)
+		finished = true
+	})
+	verifWaitAll()
+	verifAssert(finished, "the streaming copy always terminates")
+	trailer := w.hdr.Get(EndOfResponseTrailer)
+	if stall {
+		verifReach("reset-during-stall")
+		verifAssert(resetAcked, "the reset is acknowledged")
+		verifAssert(conn.closed, "the stalled connection is closed to unblock the copy")
+		verifAssert(trailer == EndOfResponseTruncated, "a copy interrupted by a reset is classified Truncated")
+		verifAssert(w.hdr.Get(FunctionErrorTypeTrailer) == "Sandbox.Timeout", "trailer carries the error type of the reset reason")
+		verifAssert(err != nil, "interrupted copy reports an error")
+	} else {
+		verifReach("complete")
+		verifAssert(err == nil && trailer == EndOfResponseComplete, "an uninterrupted copy is classified Complete")
+		verifAssert(string(w.body) == string(data), "bytes are forwarded in order and unaltered")
+	}
 }
